@@ -17,7 +17,7 @@ Model/C11: executable model of cflib's TOC cache.
 
 File names, indent, encoder keys, decoder keys and class names come from Gen/C11 (Tie A).  No Mathlib.
 -/
-import CfVerif.Base.Bytes
+import CfVerif.Base.Struct
 import CfVerif.Gen.C11
 namespace CfVerif.C11
 open CfVerif
@@ -710,5 +710,26 @@ def fetcherStep (w : World) : Ev → Except Err (World × List Out)
       else
         let (fs', c') := w.cache.insert w.fs w.f.crc t'
         .ok ({ fs := fs', cache := c', f := { w.f with toc := .typed t', state := .done } }, [.finished])
+
+/-! ## the TOC info reply as it arrives: both protocol generations
+
+`_new_packet_cb` in state GET_TOC_INFO: `struct.unpack('<HI', payload[:6])` (protocol ≥ 4) or
+`struct.unpack('<BI', payload[:5])` (legacy); formats from Gen.  The checksum that keys the cache is the second field. -/
+
+def infoFmt (v2 : Bool) : String := if v2 then Gen.C11.infoFmts.getD 0 "" else Gen.C11.infoFmts.getD 1 ""
+def infoSize (v2 : Bool) : Nat := if v2 then 6 else 5
+
+/-- `[self.nbr_of_items, self._crc] = struct.unpack(fmt, payload[:size])`; a short payload raises `struct.error`
+in the packet callback -/
+def decodeInfo (v2 : Bool) (payload : List UInt8) : Except Err (Nat × Nat) :=
+  match unpack (parseFmt! (infoFmt v2)) (payload.take (infoSize v2)) with
+  | .ok [.int n, .int c] => .ok (n.toNat, c.toNat)
+  | _ => .error .exc
+
+/-- the info reply packet (payload = data after the command byte) handled by a fetcher of generation `v2` -/
+def fetcherInfoPkt (w : World) (v2 : Bool) (payload : List UInt8) : Except Err (World × List Out) :=
+  match decodeInfo v2 payload with
+  | .ok (n, c) => fetcherStep w (.info n c)
+  | .error e => .error e
 
 end CfVerif.C11
